@@ -71,6 +71,9 @@ func (m *mach) updateID(rt *rapid.T) {
 		return
 	}
 	q := fmt.Sprintf("UPDATE t SET id = %v WHERE v = %d", x, r.v)
+	if x.Cmp(m.upper) > 0 {
+		m.upper = new(big.Int).Set(x) // MySQL 8 advances the counter past an updated id
+	}
 	m.exec(rt, q) // may fail with a duplicate key; either way the counter bookkeeping is not ours to predict
 	m.rows = m.read(rt)
 	m.st.Class("stmt:update-id")
@@ -112,6 +115,9 @@ func (m *mach) alter(rt *rapid.T) {
 		return
 	}
 	q := fmt.Sprintf("ALTER TABLE t AUTO_INCREMENT = %v", n)
+	if n1 := new(big.Int).Sub(n, big.NewInt(1)); n1.Cmp(m.upper) > 0 {
+		m.upper = n1
+	}
 	res := m.exec(rt, q)
 	if res.Err != nil {
 		rt.Fatalf("ALTER failed: %v\nhistory:\n%s", res.Err, m.history())
@@ -149,6 +155,7 @@ func (m *mach) truncate(rt *rapid.T) {
 		rt.Fatalf("TRUNCATE left rows\nhistory:\n%s", m.history())
 	}
 	m.floor = big.NewInt(0) // a new life of the table
+	m.upper = big.NewInt(0)
 	m.alterBelowActive = false
 	m.st.Class("stmt:truncate")
 	m.checkLastUnchanged(rt, "TRUNCATE")
@@ -161,7 +168,7 @@ func TestC20(t *testing.T) {
 		st.Eval()
 		f := fx.New(fx.Opts{})
 		defer f.Close()
-		m := &mach{st: st, s: f.NewSession("", "", ""), floor: big.NewInt(0), lastID: big.NewInt(0)}
+		m := &mach{st: st, s: f.NewSession("", "", ""), floor: big.NewInt(0), upper: big.NewInt(0), lastID: big.NewInt(0)}
 		m.typ = rapid.SampledFrom(intTypes).Draw(rt, "type")
 		m.pk = rapid.IntRange(0, 3).Draw(rt, "pk") != 0
 		m.uu = rapid.Bool().Draw(rt, "uniqueU")
